@@ -1,0 +1,14 @@
+//go:build verif && linux && amd64
+
+package transforms32
+
+// Verification hooks: the assembly entry points.
+
+func VerifAsmForwardDCT64(input []float32)  { asmForwardDCT64(input) }
+func VerifAsmForwardDCT256(input []float32) { asmForwardDCT256(input) }
+
+func VerifAsmDCT2DHash64(input []float32) [64]float32 { return asmDCT2DHash64(input) }
+
+func VerifAsmYCbCrToGray(pixels []float32, minX, minY, maxX, maxY int, sY, sCb, sCr []uint8, yStride, cStride int) {
+	asmYCbCrToGray(pixels, minX, minY, maxX, maxY, sY, sCb, sCr, yStride, cStride)
+}
